@@ -13,7 +13,7 @@ CONSTANTS
   MaxRoot = {b[0]}
   MaxAdd = {b[1]}
   MaxGroups = {b[2]}
-INVARIANTS TypeOK Partition AdditionsAfterMarker GroupsKept ChoiceHasNoGroupMembers FoldAgrees Emit
+INVARIANTS TypeOK Partition AdditionsAfterMarker GroupsKept ChoiceHasNoGroupMembers FoldAgrees Emit EmitHeader
 CHECK_DEADLOCK FALSE
 """)
     return cfg
@@ -31,7 +31,7 @@ def drive_and_validate(run, cases, shards, extra=()):
 
 def check(tier):
     run = Run("C05", tier)
-    run.skip_key = ['kind', 'implied', 'nested', 'layout']
+    run.skip_key = ['kind', 'implied', 'nested', 'layout', 'tags']
     b = BOUNDS[tier]
     res = core.tlc("mc/MC_C05.tla", gen_cfg(run, b), workers=8 if tier == "quick" else 16, coverage=True, timeout=3000, xmx="12g")
     core.check_coverage(res)
@@ -65,7 +65,7 @@ def check(tier):
 def replay(payload):
     run = Run("C05", "quick")
     ev = payload["event"]
-    case = {k: ev[k] for k in ("kind", "implied", "nested", "layout")}
+    case = {k: ev[k] for k in ("kind", "implied", "nested", "layout", "tags") if k in ev}
     # the case is compiled next to a neighbour module with the opposite extensibility default,
     # once with each alphabetical order of the two module names (state leaking between modules)
     companion = dict(case, implied=not case["implied"])
